@@ -111,6 +111,9 @@ class Translator:
             if isinstance(v, str):
                 return f"(.litS {lean_bytes(v.encode('utf-8'))})"
             raise Gap(f"constant {v!r}")
+        if isinstance(node, ast.UnaryOp) and isinstance(node.op, ast.USub) and isinstance(node.operand, ast.Constant) \
+                and isinstance(node.operand.value, int) and not isinstance(node.operand.value, bool):
+            return f"(.lit {lean_int(-node.operand.value)})"
         if isinstance(node, ast.Call):
             f = node.func
             if isinstance(f, ast.Name) and f.id == "len" and len(node.args) == 1:
